@@ -138,7 +138,7 @@ def h_dest(ctx, N, mode, prefix=(), limits=2):
                      lambda: {"sig": "transaction completed without Transaction-Finished"})
 
 
-MSG_SETS = ["none", "plain", "orig", "orig+proxy"]
+MSG_SETS = ["none", "plain", "orig", "orig+proxy", "proxy-after-orig", "orig-plain-proxy"]
 
 
 def build_msgs(kind):
@@ -152,6 +152,10 @@ def build_msgs(kind):
         return [om], orig
     pr = ProxyPutResponse(ProxyPutResponseParams.from_finished_params(FinishedParams(
         DeliveryCode.DATA_COMPLETE, ConditionCode.NO_ERROR, FileStatus.FILE_RETAINED))).to_generic_msg_to_user_tlv()
+    if kind == "proxy-after-orig":
+        return [om, pr], None
+    if kind == "orig-plain-proxy":
+        return [om, MessageToUserTlv(b"hello"), pr], None
     return [pr, om], None
 
 
@@ -172,7 +176,10 @@ def h_src(ctx, T, mode, prefix, msgs):
     ctx.prop("transaction_indication_first", len(o.ind) >= 1 and o.ind[0][0] == "transaction" and len(tr) == 1,
              lambda: {"sig": str([e[0] for e in o.ind])})
     ctx.prop("transaction_indication_id", tr[0][1] == tid and tid is not None)
-    ctx.prop("originating_id_rule", tr[0][2] == want_orig,
+    got_orig = tr[0][2]
+    same = (got_orig is None and want_orig is None) or (
+        got_orig is not None and want_orig is not None and got_orig == want_orig)
+    ctx.prop("originating_id_rule", same,
              lambda: {"sig": f"{msgs}: originating id {tr[0][2]}"})
     md = o.pdus[0]
     ctx.prop("metadata_pdu_carries_messages", (md.options or []) == (mlist or []))
@@ -256,7 +263,7 @@ def plan(tier):
 
 
 BOUNDS = {
-    "quick": "the four implemented indication switches symbolic (forked when the handler consults them); receiver: every sequence of N=4 events (and N=3 events after a scripted complete delivery with expiration limits 1 and 2, so that limit faults and the Finished(cancel) exchange are reached) over {Metadata, File Data (symbolic offset/length), EOF, EOF(cancel), tick, cancel request, ACK(Finished)} in both modes, closure on/off; sender: 9 canonical prefixes + every sequence of T=2 events; message-to-user lists: none / plain / originating id / proxy put response + originating id",
+    "quick": "the four implemented indication switches symbolic (forked when the handler consults them); receiver: every sequence of N=4 events (and N=3 events after a scripted complete delivery with expiration limits 1 and 2, so that limit faults and the Finished(cancel) exchange are reached) over {Metadata, File Data (symbolic offset/length), EOF, EOF(cancel), tick, cancel request, ACK(Finished)} in both modes, closure on/off; sender: 9 canonical prefixes + every sequence of T=2 events; message-to-user lists: none / plain / originating id / proxy put response before and after the originating id / with a plain message in between",
     "thorough": "receiver N=5, sender T=3",
 }
 OUTSIDE = "TLV contents beyond the four lists; suspended/resumed indications (unimplemented); 'exactly one Transaction-Finished per transaction' is not demanded here (a cancel request after completion repeats it)"
